@@ -311,11 +311,26 @@ def sync_method(ctx, obj, name, args, kwargs):
             st[fld] = bool(ctx.truth(st[fld]))      # a symbolic initial state is decided here (case split)
     if k == "queue":
         if name in ("put", "put_nowait"):
-            st["items"].append(args[0])
+            if st.get("tail") is not None:
+                st.setdefault("after", []).append(args[0])      # behind the symbolic tail
+            else:
+                st["items"].append(args[0])
             return None
         if name in ("get", "get_nowait"):
             if st["items"]:
                 return st["items"].pop(0)
+            if st.get("tail") is not None and ctx.branch(z3.Length(st["tail"].term) > 0):
+                # the queue continues with a MODELLED symbolic sequence of items: take its head
+                from .specmodels import _seq_uncons
+                ctx._uncons_quiet = True
+                try:
+                    xo, rest = _seq_uncons(ctx, [st["tail"]], {})
+                finally:
+                    ctx._uncons_quiet = False
+                st["tail"] = rest
+                return xo
+            if st.get("after"):
+                return st["after"].pop(0)
             if st.get("extra") is not None:
                 # further, unknown items behind the known head of the queue: their contents are not
                 # modelled, so a path that consumes one is outside this contract's shape
@@ -328,11 +343,19 @@ def sync_method(ctx, obj, name, args, kwargs):
                 ctx.py_raise(queue.Empty)
             raise Blocked("Queue.get() on an empty queue")
         if name == "empty":
+            if st.get("tail") is not None:
+                if st["items"] or st.get("after"):
+                    return False
+                from .values import SBool
+                return SBool(z3.Length(st["tail"].term) == 0)
             if st["items"] or st.get("extra") is None:
                 return len(st["items"]) == 0
             from .values import SBool
             return SBool(z3.Not(_extra_pos(st)))
         if name == "qsize":
+            if st.get("tail") is not None:
+                from .values import SInt
+                return SInt(len(st["items"]) + z3.Length(st["tail"].term) + len(st.get("after") or []))
             if st.get("extra") is None:
                 return len(st["items"])
             from .values import SInt, int_term
